@@ -19,6 +19,9 @@ def qtable(cols=None, meta=None, nrows=None, kind="QTable"):
     o.fields["__getitem__"] = _tbl_getitem
     o.fields["__setitem__"] = _tbl_setitem
     o.fields["__len__"] = nrows if nrows is not None else 0
+    # astropy: a table is truthy iff it has at least one row (a 0-row selection is falsy); a Row is an ordinary object
+    if kind == "QTable":
+        o.fields["__bool__"] = lambda t: (to_z3(t.fields["nrows"]) > 0) if (t.fields["nrows"] is not None and is_z3(t.fields["nrows"])) else bool(t.fields["nrows"])
     o.fields["__contains__"] = lambda item, cols=cols: item in cols.vals
     o.bases = ("Table",) if kind == "QTable" else ()
     return o
@@ -36,6 +39,9 @@ def _tbl_getitem(ex, path, recv, key, node):
         return cols.vals[key]
     if is_int(key):
         new = PyDict()
+        n_ = recv.fields.get("nrows")
+        if is_z3(key) and n_ is not None:
+            key = z3.If(key < 0, key + to_z3(n_), key)        # Python / astropy: a negative row index counts from the end
         for k in cols.keys:
             new = new.set(k, _select(cols.vals[k], key))
         r = qtable(new, recv.fields["meta"].copy(), None, "Row")
